@@ -1,6 +1,7 @@
 package props
 
 import (
+	"strings"
 	"fmt"
 
 	"verifharness/adapt"
@@ -237,6 +238,25 @@ func (p *c19) RunCase(ctx *runner.Ctx) runner.CaseResult {
 		gets = append(gets, adapt.BatchEntry{Table: s.Name, Del: key})
 	}
 	op := adapt.Op{Kind: adapt.OpBatchGet, Gets: gets}
+	// a third of the batch reads carry the per-table read options (ProjectionExpression with its placeholders - also
+	// placeholders that only occur in a LATER step of a path -, ConsistentRead): the single GetItem calls they are
+	// compared with carry the same ones
+	var projNames map[string]string
+	proj := ""
+	if r.Intn(3) == 0 {
+		pick := mon.Pick(r, [][2]string{{"#d.#k, v", "#d=doc,#k=name"}, {"doc.#k", "#k=size"}, {"#a, #ab", "#a=v,#ab=g"}, {"h, r, v", ""}, {"l[0].#k, #d", "#k=status,#d=doc"}, {"#d.li[1], #d.#k.#k", "#d=doc,#k=k"}})
+		proj = pick[0]
+		if pick[1] != "" {
+			projNames = map[string]string{}
+			for _, kv := range strings.Split(pick[1], ",") {
+				p := strings.SplitN(kv, "=", 2)
+				projNames[p[0]] = p[1]
+			}
+		}
+		op.Proj, op.Names = proj, projNames
+		op.Consistent = r.Intn(2) == 0
+		x.r.Counters["batch_reads_with_options"]++
+	}
 	if r.Intn(5) == 0 {
 		op.DoneCtx = mon.Pick(r, []string{"cancelled", "expired"})
 		x.r.Counters["batches_with_a_done_context"]++
@@ -250,7 +270,7 @@ func (p *c19) RunCase(ctx *runner.Ctx) runner.CaseResult {
 	x.r.Evals += st.Calls + 1 + len(gets)
 	want := map[string][]val.Item{}
 	for _, g := range gets {
-		o := cl.Do(adapt.Op{Kind: adapt.OpGet, Table: g.Table, Key: g.Del})
+		o := cl.Do(adapt.Op{Kind: adapt.OpGet, Table: g.Table, Key: g.Del, Proj: proj, Names: projNames, Consistent: op.Consistent})
 		if o.Item != nil {
 			present++
 			want[g.Table] = append(want[g.Table], o.Item)
